@@ -6,6 +6,7 @@ import (
 	"fmt"
 	"go/ast"
 	"go/parser"
+	"go/token"
 	"go/types"
 	"os"
 	"path/filepath"
@@ -80,6 +81,8 @@ func loadEngine(repo string) (*Engine, error) {
 			}
 		}
 	}
+	errPtrTags = []*Term{tagTerm(e.pathErrorPtr()), tagTerm(e.linkErrorPtr())}
+	e.trusted["error values of dynamic type *PathError / *LinkError are non-nil pointers (no typed-nil errors)"] = true
 	// index functions
 	for fn := range ssautil.AllFunctions(prog) {
 		if fn.Pkg == nil || fn.Synthetic != "" && fn.Parent() == nil && !strings.HasPrefix(fn.Synthetic, "wrapper") && fn.Blocks == nil {
@@ -435,4 +438,40 @@ func (e *Engine) syncMapValType(spec *SyncMapSpec) types.Type {
 		panic(err)
 	}
 	return env.resolveType(vx)
+}
+
+// contractSig finds a contract by (possibly shortened) key together with its signature.
+func (e *Engine) contractSig(name string) (*Contract, *types.Signature) {
+	var c *Contract
+	for k, cc := range e.cs.Funcs {
+		if k == name || calleeShort(k) == name || strings.TrimPrefix(k, modPath+".") == strings.TrimPrefix(name, "hackpadfs.") && strings.HasPrefix(k, modPath+".") {
+			c = cc
+			break
+		}
+	}
+	if c == nil {
+		return nil, nil
+	}
+	if c.Iface {
+		it := e.lookupType(c.Pkg, c.RecvType)
+		if it == nil {
+			return c, nil
+		}
+		iface, ok := it.Underlying().(*types.Interface)
+		if !ok {
+			return c, nil
+		}
+		for i := 0; i < iface.NumMethods(); i++ {
+			m := iface.Method(i)
+			if m.Name() == c.Name {
+				msig := m.Type().(*types.Signature)
+				return c, types.NewSignatureType(types.NewVar(token.NoPos, nil, "self", it), nil, nil, msig.Params(), msig.Results(), msig.Variadic())
+			}
+		}
+		return c, nil
+	}
+	if fn := e.funcs[c.Key]; fn != nil {
+		return c, fn.Signature
+	}
+	return c, nil
 }
